@@ -1560,6 +1560,16 @@ class GateauxDerivativeRuleset(GenericDerivativeRuleset):
             else:
                 raise ValueError("Expecting coefficient or component of coefficient.")
 
+        # The gradient of a coefficient with a user-supplied derivative
+        # w.r.t. the differentiation variable varies with it as well;
+        # until that is implemented (see below) refuse instead of
+        # silently assuming it to be zero
+        if self._cd.get(o) is not None:
+            raise NotImplementedError(
+                "Gradient of a coefficient with user-supplied coefficient_derivatives "
+                "is not supported in CoefficientDerivative."
+            )
+
         # FIXME: Handle other coefficient derivatives: oprimes =
         # self._cd.get(o)
 
